@@ -52,6 +52,8 @@ def replay(w):
         return {'reproduced': sig is not None, 'signature': sig, 'observed': obs}
     if nt.get('kind') == 'round_flow':
         return _round_flow(w)
+    if nt.get('kind') == 'round_flow_repop':
+        return _round_flow_repop(w)
     # task plumbing: run the real optimiser step with a recording stand-in for the ADMM entry point
     import fast_ticc.admm as admm
     from fast_ticc import graphical_lasso as gl
@@ -176,6 +178,79 @@ def _round_flow(w):
             d = len(rows) if biased else len(rows) - 1
             want = float(((rows - rows.mean(axis=0)) ** 2).sum() / d)
             got = float(np.asarray(seen[r * K + k]).reshape(-1)[0])
+            if not close_(got, want):
+                return {'reproduced': True, 'signature': 'round-fitted-to-wrong-windows-or-estimator',
+                        'observed': {'round': r, 'cluster': k, 'got': got, 'want': want, 'biased': biased}}
+    return {'reproduced': False, 'signature': None, 'observed': {'tasks_seen': len(seen)}}
+
+
+def _round_flow_repop(w):
+    """Real front end, relabelling scripted so that every second round empties cluster 1, real
+    repopulation / statistics / optimiser plumbing; a spy on the ADMM entry point records what each
+    task was given."""
+    import fast_ticc
+    import fast_ticc.admm as admm
+    from fast_ticc import main_loop
+    from .scripted import Scripted
+    nt, inp = w['notes'], w.get('inputs') or {}
+    K, P, lim, biased, m = int(nt['K']), int(nt['P']), int(nt['limit']), bool(nt['biased']), int(nt['m'])
+    data = np.array([[flt(inp.get('x_%d_0' % i, i * 1.5 - (i % 2)))] for i in range(P)])
+    if len(set(data.ravel().tolist())) < P:
+        data = data + np.arange(P).reshape(-1, 1) * 0.37
+    lam, beta = abs(flt(inp.get('lam', 0.05))), abs(flt(inp.get('beta', 7.0)))
+    if lam == beta:
+        beta = lam + 1.0
+    seen = []
+    real = admm.admm_optimize_theta
+
+    def spy(cov, lam_, W_, N_, *a, **k):
+        seen.append((np.array(cov, copy=True), lam_, W_, N_))
+        return real(cov, lam_, W_, N_, *a, **k)
+    admm.admm_optimize_theta = spy
+    sc = Scripted({}, K, 1, initial=[i % K for i in range(P)],
+                  relabel=[[0] * P if r % 2 == 0 else [(i + r) % K for i in range(P)] for r in range(lim)],
+                  scripted=('bic', 'ch', 'initial'))
+
+    class P1:
+        def apply_async(self, f, a=(), kw=None):
+            class T:
+                def get(s):
+                    return f(*a, **(kw or {}))
+            return T()
+
+        def close(self):
+            pass
+
+        def join(self):
+            pass
+    old_pool = main_loop._init_task_pool
+    main_loop._init_task_pool = lambda n: P1()
+    try:
+        with sc:
+            fast_ticc.ticc_labels(data, window_size=1, num_clusters=K, iteration_limit=lim, min_cluster_size=m,
+                                  sparsity_weight=lam, label_switching_cost=beta, biased_covariance=biased)
+    except Exception as exc:
+        return {'reproduced': True, 'signature': 'run-raises', 'observed': {'raised': repr(exc)}}
+    finally:
+        main_loop._init_task_pool = old_pool
+        admm.admm_optimize_theta = real
+    if len(seen) != lim * K or len(sc.stats_inputs) != lim:
+        return {'reproduced': True, 'signature': 'wrong-number-of-optimiser-tasks',
+                'observed': {'tasks': len(seen), 'rounds': len(sc.stats_inputs)}}
+    for r in range(lim):
+        labs = sc.stats_inputs[r]
+        for k in range(K):
+            cov, lam_, W_, N_ = seen[r * K + k]
+            if not (isinstance(lam_, float) and lam_ == lam and W_ == 1 and N_ == 1):
+                return {'reproduced': True, 'signature': 'optimiser-not-given-the-users-parameters',
+                        'observed': {'round': r, 'cluster': k, 'got': repr((lam_, W_, N_)), 'user_lambda': lam}}
+            rows = data[[i for i, l in enumerate(labs) if l == k], :]
+            d = len(rows) if biased else len(rows) - 1
+            if len(rows) < 2:
+                return {'reproduced': True, 'signature': 'cluster-fitted-with-fewer-than-two-windows',
+                        'observed': {'round': r, 'cluster': k, 'labels': labs}}
+            want = float(((rows - rows.mean(axis=0)) ** 2).sum() / d)
+            got = float(np.asarray(cov).reshape(-1)[0])
             if not close_(got, want):
                 return {'reproduced': True, 'signature': 'round-fitted-to-wrong-windows-or-estimator',
                         'observed': {'round': r, 'cluster': k, 'got': got, 'want': want, 'biased': biased}}
